@@ -162,8 +162,92 @@ func sgn(i int) string {
 	return "0"
 }
 
+// builtin calls a String built-in with register values (stream A `bi` ops).
+func (m *machine) builtin(w []string) string {
+	d, op, args := atoi(w[1]), w[2], w[3:]
+	fn := func(path string) goja.Callable {
+		v, err := m.rt.RunString(path)
+		if err != nil {
+			panic(err)
+		}
+		f, _ := goja.AssertFunction(v)
+		return f
+	}
+	num := func(x string) goja.Value {
+		if x == "u" {
+			return goja.Undefined()
+		}
+		n, err := strconv.ParseInt(x, 10, 64)
+		if err != nil {
+			panic("bad int " + x)
+		}
+		return m.rt.ToValue(n)
+	}
+	finish := func(res goja.Value, err error) string {
+		if err != nil {
+			return "EXC " + common.OneLine(err.Error())
+		}
+		if goja.IsUndefined(res) {
+			m.regs[d] = m.rt.ToValue("").(goja.String)
+			return "undef"
+		}
+		v, ok := res.(goja.String)
+		if !ok {
+			return "NOTSTRING " + fmt.Sprintf("%T", res)
+		}
+		m.regs[d] = v
+		return tagOf(v)
+	}
+	switch op {
+	case "slice", "substring", "substr":
+		return finish(fn("String.prototype." + op)(m.reg(args[0]), num(args[1]), num(args[2])))
+	case "at", "charAt":
+		return finish(fn("String.prototype." + op)(m.reg(args[0]), num(args[1])))
+	case "repeat":
+		return finish(fn("String.prototype.repeat")(m.reg(args[0]), num(args[1])))
+	case "padStart", "padEnd":
+		return finish(fn("String.prototype." + op)(m.reg(args[0]), num(args[2]), m.reg(args[1])))
+	case "replace", "replaceAll":
+		return finish(fn("String.prototype." + op)(m.reg(args[0]), m.reg(args[1]), m.reg(args[2])))
+	case "splitjoin":
+		return finish(fn("(function(s,p,j){return s.split(p).join(j)})")(goja.Undefined(), m.reg(args[0]), m.reg(args[1]), m.reg(args[2])))
+	case "splitpiece":
+		return finish(fn("(function(s,p,k){return s.split(p)[k]})")(goja.Undefined(), m.reg(args[0]), m.reg(args[1]), num(args[2])))
+	case "concat":
+		vals := make([]goja.Value, 0, len(args))
+		for _, a := range args[1:] {
+			vals = append(vals, m.reg(a))
+		}
+		return finish(fn("String.prototype.concat")(m.reg(args[0]), vals...))
+	case "fcc":
+		u, err := parseUnits(args[0])
+		if err != nil {
+			return "ERR"
+		}
+		vals := make([]goja.Value, len(u))
+		for i, c := range u {
+			vals[i] = m.rt.ToValue(int64(c))
+		}
+		return finish(fn("String.fromCharCode")(goja.Undefined(), vals...))
+	case "fcp":
+		u, err := parseUnits(args[0])
+		if err != nil {
+			return "ERR"
+		}
+		cps := codePoints(u)
+		vals := make([]goja.Value, len(cps))
+		for i, c := range cps {
+			vals[i] = m.rt.ToValue(int64(c))
+		}
+		return finish(fn("String.fromCodePoint")(goja.Undefined(), vals...))
+	}
+	return "ERR"
+}
+
 func (m *machine) step(w []string) string {
 	switch w[0] {
+	case "bi":
+		return m.builtin(w)
 	case "reset":
 		m.regs = map[int]goja.String{}
 		m.sbs = map[int]*goja.StringBuilder{}
@@ -664,6 +748,9 @@ func pairLine(line string, wrap string, first int) string {
 	parts := strings.Split(line, "|")
 	if len(parts) != 3 {
 		return "ERR parts"
+	}
+	if first%9 == 0 {
+		shared = nil // every few pairs: a FRESH runtime, so that the observation is the first operation it ever performs
 	}
 	c := getCtx()
 	c.nvar = 0
